@@ -20,8 +20,16 @@ ROOTS == JsonDeserialize(IOEnv.VERIF_ROOTS)
 VARIABLES l,        \* next line of the trace
           pos,      \* specification position
           legal,    \* Legal(pos), cached
-          bad       \* names of the checks that failed at the last step
-vars == <<l, pos, legal, bad>>
+          bad,      \* names of the checks that failed at the last step
+          seen      \* hash observed for each position identity met so far in this trace
+vars == <<l, pos, legal, bad, seen>>
+
+\* identity of a position for the hash and for repetition: placement, side, rights, en-passant file
+IdentKey(p) == Placement(p.b) \o " " \o p.turn \o " " \o RightsStr(p.cr) \o " " \o ToString(p.ep)
+\* C04, first sentence, independent of the key formula: whatever path led to a position, equal
+\* positions were given equal hashes
+SameHashAsBefore(p, o) == LET k == IdentKey(p) IN k \in DOMAIN seen => seen[k] = o.zob
+Remember(p, o) == LET k == IdentKey(p) IN [x \in DOMAIN seen \cup {k} |-> IF x = k THEN o.zob ELSE seen[x]]
 
 NoPos == [b |-> [s \in Sq |-> "."], turn |-> "w", cr |-> {}, ep |-> -1, hm |-> 0, fm |-> 0]
 
@@ -108,7 +116,8 @@ Reset ==
            B == Checks(p, L, e.obs)
                 \cup Fail("C06", "accepted-unplayable", ValidPosition(PosOfJson(e.obs.pos)))
                 \cup Fail("C05", "parse", PosOfJson(e.obs.pos) = p)
-       IN /\ Report(B) /\ bad' = B /\ pos' = p /\ legal' = L
+                \cup Fail("C04", "equal-positions-hashed-differently", SameHashAsBefore(p, e.obs))
+       IN /\ Report(B) /\ bad' = B /\ pos' = p /\ legal' = L /\ seen' = Remember(p, e.obs)
     /\ l' = l + 1
 
 \* one call of move_new / move_mut / move_into
@@ -122,6 +131,7 @@ Move ==
            B == Checks(ps, Ls, e.obs) \cup ProbeChecks(Ls, e)
                 \cup Fail("C02", "accept", e.accepted = isLegal)
                 \cup Fail("C01", "is_legal-refuses-generated-move", e.refused_generated = <<>>)
+                \cup Fail("C04", "equal-positions-hashed-differently", PosOfJson(e.obs.pos) = ps => SameHashAsBefore(ps, e.obs))
                 \cup Fail("C02", "refusal-touched", e.accepted \/ e.untouched)
            \* after a (reported) divergence continue from the implementation's position, so that
            \* the rest of the walk is checked on its own merits instead of repeating the report
@@ -130,6 +140,7 @@ Move ==
        IN /\ Report(B) /\ bad' = B
           /\ pos' = IF resync THEN po ELSE ps
           /\ legal' = IF resync THEN SafeLegal(po) ELSE Ls
+          /\ seen' = IF PosOfJson(e.obs.pos) = ps THEN Remember(ps, e.obs) ELSE seen
     /\ l' = l + 1
 
 \* a board the parser or the builder returned for an arbitrary input (C06): it must be playable;
@@ -142,10 +153,10 @@ Parsed ==
            L == IF valid /\ e.full THEN Legal(p) ELSE {}
            B == Fail("C06", "accepted-unplayable:" \o InvalidReason(p), valid)
                 \cup (IF valid /\ e.full THEN Checks(p, L, e.obs) ELSE {})
-       IN /\ Report(B) /\ bad' = B /\ pos' = p /\ legal' = L
+       IN /\ Report(B) /\ bad' = B /\ pos' = p /\ legal' = L /\ UNCHANGED seen
     /\ l' = l + 1
 
-Init == l = 1 /\ pos = NoPos /\ legal = {} /\ bad = {}
+Init == l = 1 /\ pos = NoPos /\ legal = {} /\ bad = {} /\ seen = <<>>
 Next == Reset \/ Move \/ Parsed
 Spec == Init /\ [][Next]_vars
 
